@@ -250,37 +250,48 @@ def lookupMode (m : List (Int × Int)) (j : Int) : Except Err Int :=
   | some p => .ok p.2
   | none => .error .key
 
-/-- `exitStatement` (also used to replay loop bodies) -/
-def execStmt (o : SetOrder Int) (incs : Includes K) (st : LState K) (s : Stmt) : LRes K (LState K) := do
-  let T := st.tables
-  let modes ← liftE T (s.modes.mapM (evalMode T))
-  let st := { st with modes := st.modes ++ modes }
-  -- arguments; parameters met while evaluating them are appended to _PARAMS
-  let (T, args) ← match s.args with
-    | none => pure (T, none)
-    | some a =>
-      let T' : Tables K := { T with params := T.params ++ a.pars.map .sym }
-      let (pos, kw) ← liftE T' (evalArgs T a)
-      pure (T', some (pos.map (wrapRRT T'.params), kw.map fun kv => (kv.1, wrapRRT T'.params kv.2)))
-  let st := { st with tables := T }
+/-- parameters a statement appends to `_PARAMS` while its arguments are evaluated -/
+def stmtPars (s : Stmt) : List PEntry :=
+  match s.args with
+  | none => []
+  | some a => a.pars.map .sym
+
+/-- what a statement contributes, given the tables it is evaluated against: the modes it adds
+to the mode set and the operations it appends (one, or the renamed operations of an included
+program) -/
+def stmtEffect (o : SetOrder Int) (incs : Includes K) (T : Tables K) (s : Stmt) :
+    Except Err (List Int × List (Op K)) := do
+  let modes ← s.modes.mapM (evalMode T)
+  let params' := T.params ++ stmtPars s
+  let args ← match s.args with
+    | none => pure none
+    | some a => do
+      let (pos, kw) ← evalArgs T a
+      pure (some (pos.map (wrapRRT params'), kw.map fun kv => (kv.1, wrapRRT params' kv.2)))
   let op : Op K := ⟨s.op, args, modes⟩
   match dictGet incs s.op with
-  | none => .ok { st with ops := st.ops ++ [op] }
+  | none => .ok (modes, [op])
   | some (_, bb) =>
     let bbModes := sortedModes o bb.modes
-    if modes.length ≠ bbModes.length then .error (.value, T)
+    if modes.length ≠ bbModes.length then .error .value
     else do
       let bb ← match args with
         | some (_, kw) =>
-          if !bb.isTemplate then .error (.value, T)
-          else if !(sameSet bb.paramSet (kw.map (·.1))) then
-            .error (.value, T)
-          else liftE T (instantiate bb kw)
-        | none => if bb.isTemplate then .error (.value, T) else pure bb
+          if !bb.isTemplate then .error .value
+          else if !(sameSet bb.paramSet (kw.map (·.1))) then .error .value
+          else instantiate bb kw
+        | none => if bb.isTemplate then .error .value else pure bb
       let modeMap := bbModes.zip modes
-      let ops ← liftE T (bb.ops.mapM fun o => do
-        .ok { o with modes := ← o.modes.mapM (lookupMode modeMap) })
-      .ok { st with ops := st.ops ++ ops }
+      let ops ← bb.ops.mapM fun o => do
+        .ok { o with modes := ← o.modes.mapM (lookupMode modeMap) }
+      .ok (modes, ops)
+
+/-- `exitStatement` (also used to replay loop bodies) -/
+def execStmt (o : SetOrder Int) (incs : Includes K) (st : LState K) (s : Stmt) : LRes K (LState K) :=
+  let T' : Tables K := { st.tables with params := st.tables.params ++ stmtPars s }
+  match stmtEffect o incs st.tables s with
+  | .ok (modes, ops) => .ok { tables := T', ops := st.ops ++ ops, modes := st.modes ++ modes }
+  | .error e => .error (e, T')
 
 /-- value range of `range(a, b[, c])` on naturals (`c = 0` is a ValueError in Python) -/
 def rangeVals (a b c : Nat) : List Nat :=
@@ -379,6 +390,24 @@ inductive RowElem (K : Type) | val (v : Num K) | par (p : String)
 def dtypeOf : VarType → Option DType
   | .int => some .int | .float => some .float | .complex => some .complex | _ => none
 
+inductive AssembleErr | ragged | shape | empty
+  deriving DecidableEq, Repr
+
+/-- the layout part of `exitArrayvar`: rows of equal length (repaired: checked explicitly),
+`reshape(array_rows, -1)`, comparison with the declared shape -/
+def assemble {K : Type} (dt : DType) (shp : Option (List Nat)) (crows : List (List (SExpr K))) :
+    Except AssembleErr (Val K) :=
+  if !allSameLength crows then .error .ragged
+  else
+    match crows with
+    | [] => .error .empty
+    | r0 :: _ =>
+      let nr := crows.length
+      let nc := r0.length
+      match shp with
+      | some s => if s ≠ [nr, nc] then .error .shape else .ok (.arr dt nr nc (crows.flatMap id))
+      | none => .ok (.arr dt nr nc (crows.flatMap id))
+
 /-- `exitArrayvar` (repaired: parameter positions, row-length check) -/
 def execArr (tdm : Bool) (st : LState K) (ty : VarType) (pos : Pos) (n : VName)
     (shape : Option (List String)) (body : ArrBody) : LRes K (LState K) := do
@@ -425,17 +454,11 @@ def execArr (tdm : Bool) (st : LState K) (ty : VarType) (pos : Pos) (n : VName)
         .ok (finish T'' (.arr .object r c flat))
       | _, _ => .error (.ood "whole-array parameter with a shape that is not two-dimensional", T')
     else
-      if !allSameLength crows then .error (.syntax .ragged n.text pos, T')
-      else
-        match crows with
-        | [] => .error (.value, T')              -- reshape(0, -1)
-        | r0 :: _ =>
-          let nr := crows.length
-          let nc := r0.length
-          match shp with
-          | some s => if s ≠ [nr, nc] then .error (.syntax .shapeMismatch n.text pos, T')
-                      else .ok (finish T' (.arr (if parsHere.isEmpty then dt else .object) nr nc (crows.flatMap id)))
-          | none => .ok (finish T' (.arr (if parsHere.isEmpty then dt else .object) nr nc (crows.flatMap id)))
+      match assemble (if parsHere.isEmpty then dt else .object) shp crows with
+      | .ok v => .ok (finish T' v)
+      | .error .ragged => .error (.syntax .ragged n.text pos, T')
+      | .error .shape => .error (.syntax .shapeMismatch n.text pos, T')
+      | .error .empty => .error (.value, T')              -- reshape(0, -1)
 
 def execItem (o : SetOrder Int) (tdm : Bool) (incs : Includes K) (st : LState K) : Item → LRes K (LState K)
   | .var ty n init => execVar st ty n init
